@@ -1,5 +1,5 @@
 """C02 -- Python decode(encode(v)) == v, re-encoding reproduces the bytes, nothing raises."""
-from .. import common, drive, gen, tlc
+from .. import common, drive, gen, tlc, usmall
 from ..report import Report
 from . import designlevel, pywire
 
@@ -128,6 +128,12 @@ def main(tier, replay=None):
             cases.append(c)
             for f in gen.features(t):
                 rep.feature(f)
+        # direction spec -> code: the complete universe U_small with its basis values, written by TLC
+        for k, prog, vals in usmall.programs(rep, tier, "Python encode / decode / re-encode"):
+            c = pywire.PyCase("c02-usmall-%d" % k, prog, vals)
+            pywire.run_case(c, scratch, want=("encode", "decode"))
+            cases.append(c)
+            rep.feature("u_small")
         ecases = enum_offset_cases(seed, reduced=(tier == "quick"))
         for c in ecases:
             pywire.run_case(c, scratch, want=("encode", "decode"))
